@@ -14,7 +14,7 @@ with the terminate event set (it then exits at its next poll - refinement condit
 from pbsym import ctx
 from pbsym.ctx import B
 from pbsym.models import mp as mpm
-from harness.C08 import run_world, scenario, _d_ok, _l_ok, LIFE, TIMEOUT_S, BEH, QB, TB
+from harness.C08 import run_world, scenario, _d_ok, _l_ok, LIFE, TIMEOUT_S, BEH, QB, TB, TWIDE
 
 PROPERTY = 'C13'
 FUNCTIONS = ['playback/studio/equalizer.py::Equalizer.run_comparison',
@@ -78,5 +78,6 @@ CONDITIONS = [
      'tiers': {'quick': {'bounds': dict(QB, L2=[0, 2, 3], DELAYS=[0, 8, 13], RATES=[1, 2]), 'timeout': 600,
                          'shards': [{'life': list(p)} for p in _LIFE2], 'witness_shard': {'life': ['hang', 'ok']}},
                'thorough': {'bounds': TB, 'timeout': 8000,
-                            'shards': [{'life': list(p)} for p in _LIFE2], 'witness_shard': {'life': ['hang', 'ok']}}}},
+                            'shards': [{'life': list(p)} for p in _LIFE2] + [dict({'life': list(p)}, **TWIDE) for p in _LIFE2],
+                            'witness_shard': {'life': ['hang', 'ok']}}}},
 ]
